@@ -511,7 +511,7 @@ static void run_matrix(uint64_t seed, long cases)
 #ifndef C10_STUB
 /* ------------------------------------------------------------------ S4: witness search on the implementation */
 #include <math.h>
-static long n_diff, n_checks, n_cases;
+static long n_diff, n_checks, n_cases, n_multi, n_straddle;
 static void report_diff(const char *sig, const char *what, const char *exp, const char *obs)
 {
    n_diff++;
@@ -542,6 +542,7 @@ static const char *split_ms(const unsigned char *data, long len, int nb, int Fs,
       samples = count * opus_packet_get_samples_per_frame(data, Fs);
       if (samples != expect_samples) { sprintf(msg, "stream %d: duration %d samples, expected %d", s, samples, expect_samples); return msg; }
       if (s == nb - 1 && pkoff != len) { sprintf(msg, "last stream consumes %d of %ld bytes", (int)pkoff, len); return msg; }
+      if (s != nb - 1 && count > 2) { n_multi++; if ((size[0] >= 252) != (size[count - 1] >= 252)) n_straddle++; }
       sub[s] = data; sublen[s] = pkoff; data += pkoff; len -= pkoff;
    }
    return NULL;
@@ -559,12 +560,27 @@ static void gen_signal(vrng *r, float *pcm, int ch, int n, int Fs, long t0)
       }
    }
 }
+/* 20 ms blocks alternating between loud/noisy (the VBR encoder spends its whole budget) and nearly silent ones, so the
+   sub-frame sizes of a 40..120 ms packet lie on both sides of the 251/252-byte length-coding boundary */
+static void gen_blocks(vrng *r, float *pcm, int ch, int n, int Fs, long t0, unsigned pattern)
+{
+   int c, i, blk = Fs / 50;
+   for (i = 0; i < n; i++) {
+      int kind = (pattern >> (((t0 + i) / blk) % 12)) & 1;
+      float na = kind ? 0.27f : 0.0002f, sa = kind ? 0.21f : 0.002f;
+      for (c = 0; c < ch; c++) {
+         double f = 300.0 + 210.0 * c, t = (double)(t0 + i) / Fs;
+         pcm[i * ch + c] = sa * (float)sin(6.2831853 * f * t) + 0.3f * sa * (float)sin(6.2831853 * 3.1 * f * t)
+                         + na * ((float)(int)(vnext(r) & 0xffff) / 32768.f - 1.f);
+      }
+   }
+}
 #include "opus_projection_decoder.c"
 
-static int run_search(uint64_t seed, long cases, int verbose)
+static int run_search(uint64_t seed, long cases, int verbose, int directed)
 {
    vrng r; long cno; r.s = seed;
-   static unsigned char pkt[400000], stdp[4000];
+   static unsigned char pkt[400000], stdp[48 * 1275 + 200];
    static float in[5760 * 40], out[5760 * 40], sout[40][5760 * 2], expf[5760 * 40];
    static opus_int16 ini[5760 * 40], outi[5760 * 40], souti[40][5760 * 2];
    static const int projch[10] = {4, 6, 9, 11, 16, 18, 25, 27, 36, 38};
@@ -580,18 +596,25 @@ static int run_search(uint64_t seed, long cases, int verbose)
       OpusDecoder *sd[40];
       char sig[200];
       opus_int16 dmx[38 * 38]; int gain = 0;
+      unsigned pattern = (unsigned)vnext(&r);
       (void)fsdiv;
+      if (directed) { Fs = vchance(&r, 85) ? 48000 : 24000; fsi = 4 + vbelow(&r, 5); nframes = 6; }
       frame_size = fsi == 5 ? Fs * 3 / 50 : fsi == 6 ? Fs * 2 / 25 : fsi == 7 ? Fs / 10 : fsi == 8 ? Fs * 3 / 25 : Fs / fsdiv[fsi];
       { static const int apps[3] = {OPUS_APPLICATION_VOIP, OPUS_APPLICATION_AUDIO, OPUS_APPLICATION_RESTRICTED_LOWDELAY}; app = apps[vbelow(&r, 3)]; }
+      if (directed) app = vchance(&r, 50) ? OPUS_APPLICATION_RESTRICTED_LOWDELAY : OPUS_APPLICATION_AUDIO;
       if (kind < 5) {           /* surround encoder, families 0 1 2 255 */
          int k = vbelow(&r, 4);
          family = k == 0 ? 0 : k == 1 ? 1 : k == 2 ? 2 : 255;
+         if (directed && family == 0) family = 255;
+         if (directed) ch = family == 1 ? vrange(&r, 3, 8) : family == 2 ? (vchance(&r, 50) ? 4 : 6) : vrange(&r, 2, 4);
+         else
          ch = family == 0 ? vrange(&r, 1, 2) : family == 1 ? vrange(&r, 1, 8) : family == 2 ? ambich[vbelow(&r, vchance(&r, 85) ? 6 : 8)] : (vchance(&r, 90) ? vrange(&r, 1, 6) : vrange(&r, 7, 20));
          enc = opus_multistream_surround_encoder_create(Fs, ch, family, &streams, &coupled, emap, app, &err);
          if (!enc) { sprintf(sig, "surround family=%d ch=%d Fs=%d", family, ch, Fs); report_diff(sig, "surround encoder creation failed for a supported layout", "OK", verr(err)); continue; }
       } else if (kind < 8) {    /* generic multistream encoder, arbitrary valid encoder layout */
          int j, need;
-         streams = vrange(&r, 1, 5); coupled = vrange(&r, 0, streams); need = streams + coupled;
+         streams = directed ? vrange(&r, 2, 4) : vrange(&r, 1, 5); coupled = vrange(&r, 0, streams); need = streams + coupled;
+         if (directed && vchance(&r, 50)) { coupled = 0; need = streams; }
          ch = need + (vchance(&r, 50) ? 0 : vrange(&r, 1, 4));
          for (j = 0; j < need; j++) emap[j] = j;
          for (j = need; j < ch; j++) emap[j] = vchance(&r, 50) ? 255 : vbelow(&r, need);
@@ -600,7 +623,7 @@ static int run_search(uint64_t seed, long cases, int verbose)
          if (!enc) { sprintf(sig, "ms ch=%d streams=%d coupled=%d Fs=%d", ch, streams, coupled, Fs); report_diff(sig, "multistream encoder creation failed for a valid layout", "OK", verr(err)); continue; }
       } else {                  /* projection encoder, family 3 */
          opus_int32 dsz = 0; unsigned char dm[38 * 38 * 2];
-         ch = projch[vbelow(&r, vchance(&r, 80) ? 4 : 10)]; family = 3;
+         ch = projch[vbelow(&r, directed ? 2 : vchance(&r, 80) ? 4 : 10)]; family = 3;
          if (ch > 20) nframes = 2;
          penc = opus_projection_ambisonics_encoder_create(Fs, ch, 3, &streams, &coupled, app, &err);
          if (!penc) { sprintf(sig, "projection ch=%d Fs=%d", ch, Fs); report_diff(sig, "projection encoder creation failed for a supported channel count", "OK", verr(err)); continue; }
@@ -621,8 +644,14 @@ static int run_search(uint64_t seed, long cases, int verbose)
          if (!dec) { report_diff("msdec", "multistream decoder creation failed for a valid layout", "OK", verr(err)); opus_multistream_encoder_destroy(enc); continue; } }
       for (s = 0; s < streams; s++) sd[s] = opus_decoder_create(Fs, s < coupled ? 2 : 1, &err);
       { int br = vchance(&r, 30) ? -1000 : vrange(&r, 6, 160) * 1000 * (streams + coupled) / 2, vbr = vbelow(&r, 2), cx = vrange(&r, 0, 10);
-        if (enc) { if (br > 0) opus_multistream_encoder_ctl(enc, OPUS_SET_BITRATE(br)); opus_multistream_encoder_ctl(enc, OPUS_SET_VBR(vbr)); opus_multistream_encoder_ctl(enc, OPUS_SET_COMPLEXITY(cx)); }
-        else { if (br > 0) opus_projection_encoder_ctl(penc, OPUS_SET_BITRATE(br)); opus_projection_encoder_ctl(penc, OPUS_SET_VBR(vbr)); opus_projection_encoder_ctl(penc, OPUS_SET_COMPLEXITY(cx)); }
+        if (directed) { /* about 80..135 kb/s for a mono stream (20 ms CELT frames of 200..340 bytes), unconstrained VBR */
+           int per = vrange(&r, 80, 135) * 1000;
+           if (coupled && vchance(&r, 40)) per = vrange(&r, 45, 70) * 1000;   /* ... or for a coupled stream */
+           br = per * (streams + coupled); vbr = 1; }
+        if (enc) { if (br > 0) opus_multistream_encoder_ctl(enc, OPUS_SET_BITRATE(br)); opus_multistream_encoder_ctl(enc, OPUS_SET_VBR(vbr)); opus_multistream_encoder_ctl(enc, OPUS_SET_COMPLEXITY(cx));
+                   if (directed) opus_multistream_encoder_ctl(enc, OPUS_SET_VBR_CONSTRAINT(0)); }
+        else { if (br > 0) opus_projection_encoder_ctl(penc, OPUS_SET_BITRATE(br)); opus_projection_encoder_ctl(penc, OPUS_SET_VBR(vbr)); opus_projection_encoder_ctl(penc, OPUS_SET_COMPLEXITY(cx));
+               if (directed) opus_projection_encoder_ctl(penc, OPUS_SET_VBR_CONSTRAINT(0)); }
         sprintf(sig, "%s family=%d ch=%d streams=%d coupled=%d Fs=%d frame=%d app=%d br=%d vbr=%d short=%d dch=%d seed=%llu case=%ld",
                 penc ? "projection" : (kind < 5 ? "surround" : "ms"), family, ch, streams, coupled, Fs, frame_size, app, br, vbr, use_short, dch, (unsigned long long)seed, cno); }
       printf("C %s family=%d ch=%d Fs=%d frame=%d short=%d\n", penc ? "projection" : (kind < 5 ? "surround" : "ms"), family, ch, Fs, frame_size, use_short);
@@ -631,7 +660,8 @@ static int run_search(uint64_t seed, long cases, int verbose)
          int len, ret, lost = fr > 0 && vchance(&r, 12);
          const unsigned char *sub[40]; long sublen[40];
          const char *why;
-         gen_signal(&r, in, ch, frame_size, Fs, (long)fr * frame_size);
+         if (directed) gen_blocks(&r, in, ch, frame_size, Fs, (long)fr * frame_size, pattern);
+         else gen_signal(&r, in, ch, frame_size, Fs, (long)fr * frame_size);
          for (i = 0; i < ch * frame_size; i++) { float v = in[i] * 32768.f; ini[i] = (opus_int16)(v > 32767 ? 32767 : v < -32768 ? -32768 : (int)v); }
          if (enc) len = use_short ? opus_multistream_encode(enc, ini, frame_size, pkt, 1275 * 3 * streams + 7) : opus_multistream_encode_float(enc, in, frame_size, pkt, 1275 * 3 * streams + 7);
          else len = use_short ? opus_projection_encode(penc, ini, frame_size, pkt, 1275 * 3 * streams + 7) : opus_projection_encode_float(penc, in, frame_size, pkt, 1275 * 3 * streams + 7);
@@ -695,6 +725,8 @@ static int run_search(uint64_t seed, long cases, int verbose)
       if (dec) opus_multistream_decoder_destroy(dec);
       if (pdec) opus_projection_decoder_destroy(pdec);
    }
+   printf("# %s: %ld non-final sub-packets with > 2 frames, %ld of them with first/last frame size on opposite sides of 252 bytes\n",
+          directed ? "straddle" : "search", n_multi, n_straddle);
    printf("SEARCH cases=%ld checks=%ld diffs=%ld\n", n_cases, n_checks, n_diff);
    return 0;
 }
@@ -794,7 +826,8 @@ int main(int argc, char **argv)
 #ifdef C10_STUB
    else if (argc >= 4 && !strcmp(argv[1], "route")) run_route(strtoull(argv[2], 0, 10), atol(argv[3]));
 #else
-   else if (argc >= 4 && !strcmp(argv[1], "search")) return run_search(strtoull(argv[2], 0, 10), atol(argv[3]), argc >= 5 ? atoi(argv[4]) : 0);
+   else if (argc >= 4 && !strcmp(argv[1], "search")) return run_search(strtoull(argv[2], 0, 10), atol(argv[3]), argc >= 5 ? atoi(argv[4]) : 0, 0);
+   else if (argc >= 4 && !strcmp(argv[1], "straddle")) return run_search(strtoull(argv[2], 0, 10), atol(argv[3]), argc >= 5 ? atoi(argv[4]) : 0, 1);
    else if (argc >= 2 && !strcmp(argv[1], "impulse")) return run_impulse();
    else if (argc >= 2 && !strcmp(argv[1], "rfc")) return run_rfc();
 #endif
